@@ -219,6 +219,10 @@ def check_C04(ctx):
     eproj = lambda ln, o: dec(o.split(' ')[0])
     corr(ctx, 'email(tld off)', gens.e_lines([b'x@' + d for d in sample if b'@' not in d], orc, tlds=(0,)), eproj, describe=describe,
          nontrivial=lambda ln, o: not o.startswith(('-16', '-3 ')))
+    # host names at their limit behind local parts at theirs (the whole address at 317-323 octets): the verdict on the name must not depend on the local part
+    mx = [a for a in gens.addr_boundary() if len(a) > 300]
+    corr(ctx, 'email(both halves at their limits)', gens.e_lines(mx, vlib.idn_oracle(gens.domains_of(mx))), eproj, describe=describe, nontrivial=lambda ln, o: True,
+         note='local parts of 62-66 octets x names of 249-256 octets +- root dot, four modes, TLD checking off and on')
     # TLD checking on: the syntax verdict must not depend on what the last labels are (reserved, listed, unlisted): dots, hyphens and
     # empty labels around such names, through is_utf8_domain, the four composers and the facade
     bases = [b'a.test', b'test', b'example.com', b'a.example.org', b'localhost', b'b.onion', b'a.io', b'b.com', b'x.museum', b'a.zz', b'io', b'1.2', b'a.xn--p1ai']
@@ -804,6 +808,17 @@ def check_C11(ctx):
             relation_violation(ctx, 'C11_same_tld_set', {'a_label': a.decode('latin-1'), 'times_named_by_raw_csv': named.get(a, 0), 'times_in_table': table.get(a, 0),
                                'raw_rows': [u for u, (rc, x) in conv if x == a][:3],
                                'explanation': 'data/raw.csv (and data/tld-domains.txt generated from it) does not name the same TLD set as the compiled table: this A-label is named %d time(s) but is in the table %d time(s)' % (named.get(a, 0), table.get(a, 0))})
+    # ... and the list the test suite iterates over (data/tld-domains.txt, one "<tld>.<tld>" per line) names each row of raw.csv exactly once
+    listed = Counter()
+    for ln_ in open(os.path.join(src, 'data', 'tld-domains.txt'), 'rb').read().split(b'\n'):
+        ln_ = ln_.strip()
+        if ln_: listed[ln_.decode('utf-8', 'replace')] += 1
+    want = Counter((r[0] + '.' + r[0]) for r in raw)
+    for dname in sorted(set(listed) | set(want)):
+        if listed.get(dname, 0) != want.get(dname, 0) and nb < 3:
+            nb += 1
+            relation_violation(ctx, 'C11_same_tld_set', {'line': dname, 'times_in_tld_domains_txt': listed.get(dname, 0), 'rows_of_raw_csv_naming_it': want.get(dname, 0),
+                               'explanation': 'data/tld-domains.txt, the list the test suite iterates over, does not name the TLD set of data/raw.csv: this name occurs %d time(s) in the list and %d time(s) in raw.csv' % (listed.get(dname, 0), want.get(dname, 0))})
     for u, (rc, a) in conv:
         if rc != 0 and nb < 4:
             nb += 1; relation_violation(ctx, 'C11_same_tld_set', {'raw_row': u, 'idn_rc': rc, 'explanation': 'a domain of data/raw.csv has no A-label form'})
@@ -1519,6 +1534,11 @@ def cli_files(rnd, n, big):
         files.append(b''.join(unit * k + b'\n' for k in range(1, top // len(unit) + 1)))
     files.append(b''.join(b'\xff' * k + b'\n' for k in range(top, 0, -1)))
     files.append(b'a@b.cc\n' + b''.join(b'\xff' * k + b'\r\n' for k in range(250, top, 7)) + b'\x01' * 321)
+    # after one long line (a buffer grown for it, perhaps shrunk again afterwards) every shorter length, all octets escaped
+    for L in (1023, 1024, 1025, 2048, 4096, 4097, 8192):
+        for unit in (b'\x01', b'\xff'):
+            files.append(b'a' * L + b'\n' + b''.join(unit * k + b'\n' for k in range(300, 0, -1)))
+            files.append(unit * L + b'\n' + b''.join(unit * k + b'\n' for k in (1, 2, 255, 256, 257, 1, 512, 256, 1023, 1024, 256)))
     # the tool has its own copy of the UTF-8 decoder (bin/): the 3- and 4-octet candidates of the C03 cover, alone and inside an address
     cands = [u for u in gens.utf8_candidates(False) if len(u) >= 3 and b'\n' not in u and 0 not in u]
     if not big: cands = cands[::3] + [u for u in cands if u[0] in (0xe0, 0xed, 0xf0, 0xf4) and u[1] in (0x80, 0x8f, 0x90, 0x9f, 0xa0, 0xbf)]
